@@ -14,5 +14,10 @@ Definition chk_shift_table (tbl : list (float * float)) (d : float) (e : list (f
   match shift_input (CTable tbl) d with
   | CTable t => Nat.eqb (List.length t) (List.length e) &&
                 forallb (fun p => fbits_eq (fst (fst p)) (fst (snd p)) && fbits_eq (snd (fst p)) (snd (snd p))) (combine t e)
-  | CConst _ => false
+  | _ => false
   end.
+
+(* a control input given as a function of span: its values at the control points come from a table keyed by the span fraction *)
+Definition chk_delta_fun (d2r : float) (left_side : bool) (root tip sat : float) (sym : bool) (k : float) (tf : list (float * float))
+           (rest : list (mixing (T:=float))) (spans expect : list float) : bool :=
+  all2 fbits_eq (map (delta_flap d2r left_side root tip sat ((sym, k, CFun (olookup tf)) :: rest)) spans) expect.
